@@ -95,10 +95,10 @@ theorem lockedWrite_setEvents (s : Sys) (m : OSet) (f : OSet → OSet) :
   · split
     · simp [beforeSetWrite_setEvents]
     · split
-      · simp [Sys.setSet, beforeSetWrite_setEvents]
+      · simp [Sys.setSet, Sys.note, beforeSetWrite_setEvents]
       · split
         · simp [beforeSetWrite_setEvents]
-        · simp [Sys.setSet, Sys.bumpRV, beforeSetWrite_setEvents]
+        · simp [Sys.setSet, Sys.note, Sys.bumpRV, beforeSetWrite_setEvents]
 
 /-- a status update appends exactly one `statusUpdate` event carrying the in-memory status. -/
 theorem updateStatus_setEvents (s : Sys) (mem : OSet) :
@@ -162,14 +162,14 @@ theorem lockedWrite_events (s : Sys) (m : OSet) (f : OSet → OSet) :
     (s.lockedWrite m f).1.w.events = s.w.events := by
   simp only [Sys.lockedWrite, Sys.beforeSetWrite]
   split
-  · simp [foldl_applySetEnv_events]
+  · simp [foldl_applySetEnv_events, World.tick]
   · split
-    · simp [foldl_applySetEnv_events]
+    · simp [foldl_applySetEnv_events, World.tick]
     · split
-      · simp [Sys.setSet, foldl_applySetEnv_events]
+      · simp [Sys.setSet, Sys.note, foldl_applySetEnv_events, World.tick]
       · split
-        · simp [foldl_applySetEnv_events]
-        · simp [Sys.setSet, Sys.bumpRV, foldl_applySetEnv_events]
+        · simp [foldl_applySetEnv_events, World.tick]
+        · simp [Sys.setSet, Sys.note, Sys.bumpRV, foldl_applySetEnv_events, World.tick]
 
 theorem updateStatus_events (s : Sys) (mem : OSet) : (s.updateStatus mem).1.w.events = s.w.events := by
   simp only [Sys.updateStatus]
